@@ -96,7 +96,9 @@ Inductive case :=
 | CaseLab (g : labgt) (b : labobs)
   (* edns.ResponseWriter (WriteMsg and WriteWire) / cache entry served to a request *)
 | CaseClientAD (q : creq) (resp_ad : bool) (observed : bool)
-| CaseCacheAD (q : creq) (stored_ad : bool) (observed : bool).
+| CaseCacheAD (q : creq) (stored_ad : bool) (observed : bool)
+  (* an alias chain answered from several cache entries (one stored verdict per hop) through edns + cache *)
+| CaseChainAD (q : creq) (hops : list bool) (observed : bool).
 
 Definition opt_err_eqb (a b : option err) : bool :=
   match a, b with
@@ -160,6 +162,7 @@ Definition check_case (c : case) : bool :=
       else true
   | CaseClientAD q ad o => Bool.eqb (client_ad q ad) o
   | CaseCacheAD q ad o => Bool.eqb (cache_ad q ad) o
+  | CaseChainAD q hops o => Bool.eqb (client_ad_cached q (forallb (fun b => b) hops)) o
   end.
 
 (* ---- specification oracles ---- *)
@@ -269,4 +272,7 @@ Definition spec_case (c : case) : bool :=
       (if negb (g_have_anchor g) && negb (b_cd b) then b_rcode b =? SERVFAIL else true)
   | CaseClientAD q ad o => if o then ad && negb (q_cd q) && (q_do q || q_ad q) else true
   | CaseCacheAD q ad o => if o then ad && negb (q_cd q) else true
+  | CaseChainAD q hops o =>
+      (* AD toward the client only if EVERY entry the reply was composed from was validated *)
+      if o then forallb (fun b => b) hops && negb (q_cd q) && (q_do q || q_ad q) else true
   end.
